@@ -195,19 +195,23 @@ class PipelineOb(Obligation):
                     if st1 in ('PANIC', 'TIMEOUT') or (st1 == 'OK' and st2 != 'OK'):
                         found = (s, st1 + ' ' + pl1[:120], st2 + ' ' + pl2[:80]); break
             if not found and out[0] in ('ok', 'err'):
-                # inputs on which the public function and eval(parse(input)) called directly give different answers
-                ph_txt = {'i64': '7', 'f64': native.f64_bits_str(7.0), 'number': 'I7', 'decimal': 'd7', 'complex': 'c%s,%s' % (native.f64_bits_str(7.0), native.f64_bits_str(0.0))}[ev]
-                for s in VALUE_POOL:
-                    st2, tree, _ = runner.request('PARSE', ev, ph_txt, native.esc(s))
-                    if st2 != 'OK': continue
-                    st3, direct, _ = runner.request('AST', ev, tree)
-                    st1, pl1, _ = runner.request('EVAL', ev, ph_txt, native.esc(s))
-                    res['replayed'] += 1
-                    if st3 in ('OK', 'ERR') and (st1 != st3 or (st1 == 'OK' and pl1 != direct)):
-                        found = (s, st1 + ' ' + pl1[:120], 'a tree on which ast::eval called directly gives ' + st3 + ' ' + direct[:80]); break
+                # inputs and placeholders on which the public function and eval(parse(input)) called directly give different answers
+                fb = native.f64_bits_str
+                PHS = {'i64': ['7', '-9223372036854775808'], 'f64': [fb(7.0), fb(-0.0), fb(float('nan')), fb(2.5)], 'number': ['I7', 'F' + fb(2.0), 'F' + fb(-0.0), 'F' + fb(2.5), 'I-9223372036854775808'], 'decimal': ['d7', 'd2.50'],
+                       'complex': ['c%s,%s' % (fb(7.0), fb(0.0)), 'c%s,%s' % (fb(-0.0), fb(1e-12))]}[ev]
+                for ph_txt in PHS:
+                    for s in ['@', '3*@', '1/@', '@!', '@+@'] + VALUE_POOL:
+                        st2, tree, _ = runner.request('PARSE', ev, ph_txt, native.esc(s))
+                        if st2 != 'OK': continue
+                        st3, direct, _ = runner.request('AST', ev, tree)
+                        st1, pl1, _ = runner.request('EVAL', ev, ph_txt, native.esc(s))
+                        res['replayed'] += 1
+                        if st3 in ('OK', 'ERR') and (st1 != st3 or (st1 == 'OK' and pl1 != direct)):
+                            found = ('%s @=%s' % (s, ph_txt), st1 + ' ' + pl1[:120], 'a tree on which ast::eval called directly gives ' + st3 + ' ' + direct[:80]); break
+                    if found: break
             if found:
                 res['confirmed'].append(dict(input=found[0], native=found[1], what='%s; natively the parser alone answers %s' % (what, found[2]), profile=profile, obligation=self.name,
-                                             key='%s|pipeline|%s' % (ev, what[:60]), request=['EVAL', ev, 'default', native.esc(found[0])]))
+                                             key='%s|pipeline|%s' % (ev, what[:60]), request=['EVAL', ev, (found[0].split(' @=')[1] if ' @=' in found[0] else 'default'), native.esc(found[0].split(' @=')[0])]))
             else:
                 res['inconclusive'].append('%s: %s (no input of the witness pool reproduces it)' % (self.name, what))
 
